@@ -802,7 +802,7 @@ class Interp(ModelMixin):
             st.facts = {f for f in st.facts if not any(isinstance(x, int) and x in deadset for x in f[1:])}
             st.first = {k: v for k, v in st.first.items() if k[0] not in deadset and (v == 'ABSENT' or v not in deadset)}
             st.lookups = {k: v for k, v in st.lookups.items() if k[0] not in deadset and v not in deadset}
-            for name in ('textsyms', 'attrib_of', 'descend_of', 'sym:textnull'):
+            for name in ('textsyms', 'attrib_of', 'descend_of', 'sym:textnull', 'sym:fromlist'):
                 m = st.mon.get(name)
                 if m:
                     st.mon[name] = {k: v for k, v in m.items() if k not in deadset}
@@ -915,7 +915,7 @@ class Interp(ModelMixin):
             if isinstance(v, Raise):
                 res.append((v, s))
             else:
-                sym = s.new(ListE('lit', lo=len(v), hi=len(v), items=tuple(v)))
+                sym = s.new(ListE('lit', lo=len(v), hi=len(v), items=tuple(v), distinct=(len(v) == 0)))
                 res.append((Ref('list', sym), s))
         return res
 
